@@ -1,11 +1,22 @@
 -- driver gm_c11: path components (UPath / Glob / Rewrite), see GrcovModel/Drv/C11.lean
 import GrcovModel.Drv.C11
+import GrcovModel.Drv.C11Partial
 open Grcov.Drv.C11
+
+/-- part drivers first, then the property's own ops -/
+def dispatch (line : String) : String :=
+  match line.trimAscii.toString.splitOn " " with
+  | "c11.partial.ext" :: args => Grcov.Drv.C11Partial.handleExt args
+  | "c11.partial.lastseg" :: args => Grcov.Drv.C11Partial.handleLastSeg args
+  | "c11.partial.rewrite" :: args => Grcov.Drv.C11Partial.handleRewrite args
+  | "c11.partial.info" :: args => Grcov.Drv.C11Partial.handleInfo args
+  | "c11.partial.cands" :: args => Grcov.Drv.C11Partial.handleCands args
+  | _ => step line
 
 partial def loop (h : IO.FS.Stream) (out : IO.FS.Stream) : IO Unit := do
   let line ← h.getLine
   if line.isEmpty then return ()
-  out.putStrLn (step line)
+  out.putStrLn (dispatch line)
   loop h out
 
 def main : IO Unit := do
